@@ -1,5 +1,6 @@
 import NasVerif.Gen.Accessors
 import NasVerif.Prelude.Basic
+import NasVerif.Model.Convert
 /-! line-protocol ops for IE field accessors (driver side): evaluates the expressions regenerated from nasType -/
 namespace NasVerif.Driver
 open NasVerif NasVerif.Acc
@@ -35,6 +36,13 @@ def accOp (toks : List String) : Option String :=
       match setTail c p.lo v with
       | .ok c' => pure s!"ok {show' (getTail c p.lo)} {bytesToHex c'} {show' (getTail c' p.lo)}"
       | _ => pure "panic"
+  | ["accs", "DNN", oh, th] => do
+    -- the text-valued pair: `SetDNN(text)` on an element holding `old`, then `GetDNN()`
+    let old ← hexToBytes oh
+    let t ← hexToBytes th
+    let b := Model.Convert.setDNN old t
+    let g := match Model.Convert.getDNN b with | .ok x => bytesToHex x | .err _ => "err" | .panic => "panic"
+    pure s!"ok {bytesToHex b} {b.length % 256} {g}"
   | _ => none
 
 end NasVerif.Driver
